@@ -20,7 +20,7 @@ def episodes(prop, tier, seed):
     q = tier == "quick"
     # the same vectors serve both properties: rank structures under C01, selection structures under C02
     off = 0 if prop == "C01" else 3
-    eps = gen_rsbig.episodes(seed + off, 26 if q else 90, big=not q)
+    eps = gen_rsbig.episodes(seed + off, 29 if q else 90, big=not q)
     if q:   # quick: rank structures under C01, selection structures under C02
         eps = [e for e in eps if ("/" not in e["key"]) == (prop == "C01")]
     out = {"big": (eps, "verif", 6)}
